@@ -5,6 +5,15 @@
 ID="$1"; TIER="${2:-quick}"
 cd /verif/harness || exit 2
 export CARGO_NET_OFFLINE=true
+mkdir -p /verif/harness/target
+# std/*.qv is embedded with include_dir!, which cargo does not track: if it changed since the last
+# build, bump the mtime of the embedding source file so the compiler crate is rebuilt.
+STAMP=/verif/harness/target/std.stamp
+NOW=$(cat /repo/std/*.qv /repo/std/*/*.qv 2>/dev/null | sha1sum | cut -d' ' -f1)
+if [ "$(cat $STAMP 2>/dev/null)" != "$NOW" ]; then
+  touch /repo/quiver-compiler/src/resolver.rs
+  echo "$NOW" > $STAMP
+fi
 if ! cargo build --profile verif -q 2>/verif/harness/target/build-$ID.log; then
   echo "HARNESS: build failed (see below); not a property verdict" >&2
   tail -40 /verif/harness/target/build-$ID.log >&2
